@@ -1288,6 +1288,11 @@ class PCE500Emulator:
                 self._in_interrupt = False
                 # After returning from interrupt, clear IRQ source marker
                 self._irq_source = None
+            elif instr_name == "RESET":
+                # A handler that restarts the firmware with RESET never executes RETI:
+                # leave interrupt context here too, or no request is ever delivered again.
+                self._in_interrupt = False
+                self._irq_source = None
         except Exception:
             pass
         return True
